@@ -203,13 +203,11 @@ func buildOperation(key string, r *expr.RouteExpr, bodies *EndpointBodies, rand 
 	// OpenAPI summary
 	var summary string
 	setSummary := func(meta expr.MetaExpr) {
-		for n, mdata := range meta {
-			if (n == "openapi:summary" || n == "swagger:summary") && len(mdata) > 0 {
-				if mdata[0] == "{path}" {
-					summary = r.Path
-				} else {
-					summary = mdata[0]
-				}
+		if s, ok := openapi.SummaryFromMeta(meta); ok {
+			if s == "{path}" {
+				summary = r.Path
+			} else {
+				summary = s
 			}
 		}
 	}
@@ -409,10 +407,8 @@ func buildFileServerOperation(key string, fs *expr.HTTPFileServerExpr, api *expr
 	var summary string
 	{
 		summary = fmt.Sprintf("Download %s", fs.FilePath)
-		for n, mdata := range fs.Meta {
-			if (n == "openapi:summary" || n == "swagger:summary") && len(mdata) > 0 {
-				summary = mdata[0]
-			}
+		if s, ok := openapi.SummaryFromMeta(fs.Meta); ok {
+			summary = s
 		}
 	}
 
